@@ -42,6 +42,11 @@ def random_layout(rng, nax=None, nmin=2, nmax=6, names=None, p=0.5, all_position
     return {"axes": axes}
 
 
+def deep(rng, tier, usual, big, p=0.25):
+    """Upper size bound of a generator: the thorough tier draws from a wider range in a quarter of its cases."""
+    return big if (tier == "thorough" and rng.random() < p) else usual
+
+
 def layout_coords(layout):
     return {a["name"]: {p: d for p, d in a["pos"]} for a in layout["axes"]}
 
